@@ -257,8 +257,21 @@ impl<'a, 'b: 'a, R: Read> RowParser<'a, 'b, R> {
                 break;
             }
 
+            if self.parser.lexer.cur.value.is_none() {
+                // End of input before the row's newline
+                break;
+            }
+
             let val = self.parser.parse_value()?;
-            dict.insert(cols[col_num].name.clone(), val);
+            match cols.get(col_num) {
+                Some(col) => dict.insert(col.name.clone(), val),
+                None => {
+                    return self
+                        .parser
+                        .lexer
+                        .make_generic_err("Zinc Grid parser: Row has more cells than columns.")
+                }
+            };
 
             self.parser.lexer.read()?;
         }
